@@ -12,11 +12,19 @@
      label_answer l s the answer label l gives for source s: the cache hit of an arrival (the empty source is
                       a hit without instance), the instance of Info s; None = the label does not release s
      waiting st s     something is parked for s
-   Proofs: Proofs/Cloud.v (accounting), Proofs/CloudInv.v (invariant, gauges), Proofs/CloudSteps.v
-   (per-label clauses, tagging, lookups), Proofs/CloudD7.v (witnesses and non-vacuity examples). *)
+     pending st       sources queued for lookup and not yet handed to the cache (toLookupIPs and Run's send
+                      register); pushed / popped / sent (lk st): every push, every send, outstanding lookups
+     abs m            the contents of a MetricMap per series key (Model/Content.v): counter total, multiset of
+                      timer values, sampled count, set members; entry_cmap e = the contents of one series;
+                      dispatch_of b m: m is a map the code may dispatch for the batch b of downstream records
+                      (its re-keyed series merged into a fresh map in ANY order - Go's map iteration order)
+   Proofs: Proofs/Cloud.v (accounting), CloudInv.v (invariant, gauges), CloudSteps.v (per-label clauses,
+   tagging), CloudLookup.v (stack, lookups), CloudMaps.v (merged maps, collisions), CloudD7.v (witnesses and
+   non-vacuity examples). *)
 From stdpp Require Import gmap.
-From GS Require Import Base.Bytes Base.LTS Model.Series Model.MetricMap Model.Cloud
-  Proofs.Cloud Proofs.CloudInv Proofs.CloudSteps Proofs.CloudD7.
+From GS Require Import Base.Bytes Base.LTS Model.Series Model.MetricMap Model.Content Model.Cloud
+  Model.CloudMaps Proofs.Cloud Proofs.CloudInv Proofs.CloudSteps Proofs.CloudLookup Proofs.CloudMaps
+  Proofs.CloudD7.
 Local Open Scope Z_scope.
 
 (* Nothing is ever duplicated or dropped: in every reachable state the multiset of items that entered is
@@ -26,6 +34,32 @@ Theorem C11_exactly_once : forall ls st,
   items_in ls ≡ₚ (d_orig <$> down st) ++ parked st.
 Proof. exact exactly_once. Qed.
 Print Assumptions C11_exactly_once.
+
+(* The same on the MetricMaps the code really builds.  Series that become equal after the update (two
+   addresses of one instance, tags that differ only in what the instance adds) are MERGED by the dispatch
+   paths, in the order Go's map iteration meets them; whatever those orders are ([maps] is any list of maps the
+   code may dispatch for the run's batches), the dispatched maps hold in total, per series key, exactly the
+   contents of the metric series in the downstream log - and the log plus the parked items is what entered. *)
+Theorem C11_exactly_once_contents : forall ls st maps,
+  run step init ls = Some st -> Forall2 dispatch_of (batches init ls) maps ->
+  items_in ls ≡ₚ (d_orig <$> down st) ++ parked st
+  /\ cmap_sum (abs <$> maps) = cmap_sum (entry_cmap <$> delivered_metrics (down st)).
+Proof. exact exactly_once_contents. Qed.
+Print Assumptions C11_exactly_once_contents.
+
+(* One merged map (a dispatch, or a park slot): in whatever order [ord] the series [es] are merged into a
+   fresh map, its contents are the sum of the series' contents (colliding series add up: counters sum, timer
+   values and sampled counts accumulate, set members unite) ... *)
+Theorem C11_merge_contents : forall es ord,
+  ord ≡ₚ es -> abs (abs_entries ord) = cmap_sum (entry_cmap <$> es).
+Proof. exact merge_contents. Qed.
+Print Assumptions C11_merge_contents.
+
+(* ... and its gauge for a key is one of the merged gauges of that key with the newest timestamp. *)
+Theorem C11_merge_gauges : forall es ord k,
+  ord ≡ₚ es -> gauge_newest (entry_map <$> es) k (MetricMap.gauges (abs_entries ord) !! k).
+Proof. exact merge_gauges. Qed.
+Print Assumptions C11_merge_gauges.
 
 (* ... and when: a label only appends to the downstream log; an arriving item whose source is empty or
    cached goes downstream within the same label, any other is parked under its own source; Info s moves
@@ -76,12 +110,12 @@ Print Assumptions C11_tagging.
 
 (* At most one lookup per source is pending or outstanding - under the environment hypothesis, built into
    [step_env], that a result Info s arrives only for a source whose lookup has left and is unanswered
-   (s ∈ sent).  The composite with the real cache also delivers refresh results; those release parked
+   (s ∈ sent (lk st)).  The composite with the real cache also delivers refresh results; those release parked
    items early, which the theorems above allow, and are why the hypothesis is explicit
    (Proofs/CloudD7.v, one_lookup_needs_env: without it the count reaches 2). *)
 Theorem C11_one_lookup : forall ls st s,
   run step_env init ls = Some st ->
-  (count s (toLookup st ++ sent st) <= 1)%nat.
+  (count s (pending st ++ sent (lk st)) <= 1)%nat.
 Proof. exact one_lookup. Qed.
 Print Assumptions C11_one_lookup.
 
@@ -89,9 +123,40 @@ Print Assumptions C11_one_lookup.
    so nothing waits without a lookup on its way and no lookup is issued for nothing. *)
 Theorem C11_lookup_iff_waiting : forall ls st s,
   run step_env init ls = Some st ->
-  count s (toLookup st ++ sent st) = if waiting st s then 1%nat else 0%nat.
+  count s (pending st ++ sent (lk st)) = if waiting st s then 1%nat else 0%nat.
 Proof. exact lookup_iff_waiting. Qed.
 Print Assumptions C11_lookup_iff_waiting.
+
+(* Every source pushed on toLookupIPs is handed to the cache exactly once or is still pending: as multisets,
+   pushes = sends + pending, in every reachable state (so once nothing is pending, every pushed source has been
+   sent exactly once).  No hypothesis on the environment. *)
+Theorem C11_every_pending_looked_up : forall ls st,
+  run step init ls = Some st -> pushed (lk st) ≡ₚ popped (lk st) ++ pending st.
+Proof. exact every_pending_looked_up. Qed.
+Print Assumptions C11_every_pending_looked_up.
+
+(* The send arm removes exactly the source it sends - one that sits in the group the register was loaded from -
+   and pushes nothing; every other label sends nothing and only adds what it pushes. *)
+Theorem C11_lookup_per_label : forall st l st',
+  step st l = Some st' ->
+  match l with
+  | SendLookup s =>
+      popped (lk st') = popped (lk st) ++ [s] /\ pushed (lk st') = pushed (lk st)
+      /\ pending st ≡ₚ s :: pending st'
+      /\ exists g, (true, g) ∈ stack (lk st) /\ s ∈ g
+  | _ => popped (lk st') = popped (lk st)
+         /\ exists new, pushed (lk st') = pushed (lk st) ++ new /\ pending st' ≡ₚ new ++ pending st
+  end.
+Proof. exact lookup_step. Qed.
+Print Assumptions C11_lookup_per_label.
+
+(* No pending source can be shut out (safety form of "no starvation"): whenever something is pending, Run's
+   send register is loaded, i.e. the send arm is enabled for some pending source. *)
+Theorem C11_pending_can_leave : forall ls st,
+  run step init ls = Some st -> pending st <> [] ->
+  exists s st', s ∈ pending st /\ step st (SendLookup s) = Some st'.
+Proof. exact pending_can_leave. Qed.
+Print Assumptions C11_pending_can_leave.
 
 (* every run under the environment hypothesis is a run of the unrestricted system *)
 Theorem C11_env_runs_are_runs : forall ls s0 st,
@@ -108,7 +173,7 @@ Theorem C11_gauges : forall ls st,
   hostsM st = u64 (Z.of_nat (size (awaitM st)))
   /\ hostsE st = u64 (Z.of_nat (size (awaitE st)))
   /\ itemsE st = u64 (Z.of_nat (length (parked_events st))).
-Proof. exact gauges. Qed.
+Proof. exact gauges_true. Qed.
 Print Assumptions C11_gauges.
 
 (* ... exactly, whenever the true numbers fit a uint64 *)
